@@ -29,7 +29,13 @@ def b(x): return "true" if x else "false"
 def xc(n): return XC.get(n, "(XOther 99)")
 
 
-def c_on(x): return "None" if x is None else f"(Some {int(x)})"
+def nn(x):
+    """a natural number of the model; the driver reports what it cannot decode as a negative id"""
+    if not isinstance(x, int) or isinstance(x, bool) or x < 0: raise Undecodable(f"not a model id: {x!r}")
+    return x
+
+
+def c_on(x): return "None" if x is None else f"(Some {nn(x)})"
 def c_ob(x): return "None" if x is None else f"(Some {b(x)})"
 def c_idet(i): return "(" + ", ".join(c_on(x) for x in i[:3]) + ")"
 
@@ -80,8 +86,8 @@ def c_out(e):
     k = e[0]
     if k == "acc": return f"OAccepted {e[1]} {e[2]} {e[3]} {c_payload(e[4])} {c_idet(e[5])} {c_ob(e[6])} {b(e[7])}"
     if k == "called":
-        det = "None" if e[5] is None else f"(Some (({c_on(e[5][0][0])}, {c_on(e[5][0][1])}, {int(e[5][0][2])}), {b(e[5][1])}))"
-        return f"OCalled {e[1]} {e[2]} {e[3]} {c_payload(e[4])} {det}"
+        det = "None" if e[5] is None else f"(Some (({c_on(e[5][0][0])}, {c_on(e[5][0][1])}, {nn(e[5][0][2])}), {b(e[5][1])}))"
+        return f"OCalled {nn(e[1])} {nn(e[2])} {nn(e[3])} {c_payload(e[4])} {det}"
     if k == "sent":
         m = e[1]
         if m[0] == "yield": return f"OSent (MYield {m[1]} {b(m[2])} {c_payload(m[3])} {b(m[4])})"
